@@ -176,18 +176,29 @@ def main(tier: str) -> int:
     from fractions import Fraction as _Fr
     kcases = []
     for _ in range(40 if tier == "quick" else 300):
-        kname = rng.choice(["OneMax", "Sphere", "Schwefel12", "Rosenbrock", "Rastrigin"])
+        kname = rng.choice(["OneMax", "Sphere", "Schwefel12", "Rosenbrock", "Rastrigin", "Griewank"])
         nr, nc = rng.randint(0, 3), rng.randint(1, 5)
         den = 1 if kname == "Rastrigin" else rng.choice([1, 2, 4])        # integers for Rastrigin: cos(2 pi k) = 1
         Xk = np.array([[rng.randint(-6, 6) / den for _ in range(nc)] for _ in range(nr)], dtype=np.float64).reshape(nr, nc)
         kcases.append((kname, Xk))
-    cls_of = {"OneMax": OP.OneMax, "Sphere": OP.Sphere, "Schwefel12": OP.Schwefe1_2, "Rosenbrock": OP.Rosenbrock, "Rastrigin": OP.Rastrigin}
+    cls_of = {"OneMax": OP.OneMax, "Sphere": OP.Sphere, "Schwefel12": OP.Schwefe1_2, "Rosenbrock": OP.Rosenbrock, "Rastrigin": OP.Rastrigin, "Griewank": OP.Griewank}
+
+    def _q(v):
+        f = _Fr(float(v))
+        return "(%d : Rat) / %d" % (f.numerator, f.denominator)
+
+    def _csi_table(Xk):
+        # Griewank's cosine parameter `csi i a` = cos(a / sqrt(i+1)) as a finite table over the entries of this population: the doubles
+        # numpy computes, read as exact rationals (the arithmetic AROUND the cosines is what the evaluation compares)
+        ent = sorted({(i, float(v)) for row in Xk for i, v in enumerate(row)})
+        tbl = ", ".join("(%d, %s, %s)" % (i, _q(v), _q(np.cos(np.float64(v) / np.sqrt(np.float64(i + 1))))) for i, v in ent)
+        return "(fun i a => ((([%s] : List (Nat × Rat × Rat)).find? (fun t => t.1 == i && t.2.1 == a)).map (·.2.2)).getD 0) " % tbl
     klines = ["import TFV.Generated.Src.Bench_OneMax_f", "import TFV.Generated.Src.Bench_Sphere_f", "import TFV.Generated.Src.Bench_Schwefel12_f",
-              "import TFV.Generated.Src.Bench_Rosenbrock_f", "import TFV.Generated.Src.Bench_Rastrigin_f", "open TFV TFV.Generated.Src",
+              "import TFV.Generated.Src.Bench_Rosenbrock_f", "import TFV.Generated.Src.Bench_Rastrigin_f", "import TFV.Generated.Src.Bench_Griewank_f", "open TFV TFV.Generated.Src",
               "def showQ : Option (List Rat) → String | none => \"none\" | some v => toString (v.map fun q => (q.num, q.den))"]
     for kname, Xk in kcases:
         mtx = "{ ncols := %d, rows := [%s] }" % (Xk.shape[1], ", ".join("[" + ", ".join("(%d : Rat) / %d" % (_Fr(float(v)).numerator, _Fr(float(v)).denominator) for v in row) + "]" for row in Xk))
-        klines.append("#eval IO.println (showQ (Bench_%s_f %s%s))" % (kname, "(fun _ => 1) " if kname == "Rastrigin" else "", mtx))
+        klines.append("#eval IO.println (showQ (Bench_%s_f %s%s))" % (kname, "(fun _ => 1) " if kname == "Rastrigin" else _csi_table(Xk) if kname == "Griewank" else "", mtx))
     kaudit = C.LEAN / "TFV" / "Audit" / "C20_np.lean"
     kaudit.parent.mkdir(parents=True, exist_ok=True)
     kaudit.write_text("\n".join(klines) + "\n")
